@@ -300,7 +300,7 @@ def main(tier, seed=0):
     total["extra"] = {"runs": {}}
     total["distinct"] = set(total["distinct"])
     capped_any = False
-    runs = [C14Spec("astd", 3, False)] if quick else [C14Spec("astd", 3, True), C14Spec("tok", 3, False), C14Spec("astd", 4, False)]
+    runs = [C14Spec("astd", 3, False)] if quick else [C14Spec("astd", 4, True), C14Spec("tok", 3, True)]
     for spec in runs:
         agg, merr, capped, wall = seqx.bfs(spec, tier, level="model_checking", rule="", technique="", finish=False, budget_s=200 if quick else 2400)
         merr_all += merr
